@@ -246,73 +246,8 @@ func (fc *FnCtx) backEdge(li *loopInfo, from *ssa.BasicBlock, k int, st *State) 
 // havocLoopRegions replaces every region that may be written in the loop by a
 // fresh version; a scalar field written only at a loop-invariant object keeps
 // all other objects' values.
-func (fc *FnCtx) havocLoopRegions(li *loopInfo, st *State) {
-	vc := fc.vc
-	type w struct {
-		name string
-		idx  []Term // nil => whole region
-	}
-	written := map[string][][]Term{}
-	whole := map[string]bool{}
-	ghosts := map[string]bool{}
-	var blocks []*ssa.BasicBlock
-	for b := range li.body {
-		blocks = append(blocks, b)
-	}
-	sort.Slice(blocks, func(i, j int) bool { return blocks[i].Index < blocks[j].Index })
-	for _, b := range blocks {
-		for _, in := range b.Instrs {
-			fc.eng.instrWrites(fc, in, li, func(region string, idx []Term) {
-				if idx == nil {
-					whole[region] = true
-				} else {
-					written[region] = append(written[region], idx)
-				}
-			}, func(g string) { ghosts[g] = true })
-		}
-	}
-	var names []string
-	for n := range written {
-		names = append(names, n)
-	}
-	for n := range whole {
-		if _, ok := written[n]; !ok {
-			names = append(names, n)
-		}
-	}
-	sort.Strings(names)
-	for _, n := range names {
-		nidx, leaf := vc.regionSort(n)
-		if _, ok := vc.eng.regions[n]; !ok {
-			continue
-		}
-		cur := vc.region(st, n, nidx, leaf)
-		if whole[n] || nidx == 0 {
-			st.Heap[n] = vc.sc.fresh(n+"@", arraySort(nidx, leaf))
-			continue
-		}
-		t := cur
-		for _, idx := range written[n] {
-			// only the first index (object/base) is kept; deeper indices are havocked
-			if nidx == 1 {
-				t = app("store", t, idx[0], vc.sc.fresh("hv", leaf))
-			} else {
-				t = app("store", t, idx[0], vc.sc.fresh("hv", arraySort(nidx-1, leaf)))
-			}
-		}
-		nm := vc.sc.fresh(n+"@", arraySort(nidx, leaf))
-		vc.sc.assert(eq(nm, t))
-		st.Heap[n] = nm
-	}
-	var gs []string
-	for g := range ghosts {
-		gs = append(gs, g)
-	}
-	sort.Strings(gs)
-	for _, g := range gs {
-		st.Gh[g] = vc.sc.fresh("gh_"+g, fc.eng.ghostSort(g))
-	}
-}
+// (implementation in loopframe.go)
+var _ = sort.Strings
 
 // ---------------------------------------------------------------------------
 
